@@ -20,7 +20,11 @@ fn dispatch<P: Prop>(p: P, args: &[String]) -> i32 {
     }
 }
 
+#[global_allocator]
+static ALLOC: vharness::alloccheck::Checking = vharness::alloccheck::Checking;
+
 fn main() {
+    vharness::alloccheck::mark_installed();
     let args: Vec<String> = std::env::args().skip(1).collect();
     vharness::common::install_panic_hook();
     let id = args.first().map(|s| s.as_str()).unwrap_or("");
@@ -30,11 +34,17 @@ fn main() {
         "C03" => dispatch(props::c03::C03, &args),
         "C04" => dispatch(props::c04::C04, &args),
         "C05" => dispatch(props::c05::C05, &args),
+        "C06" => dispatch(props::c06::C06, &args),
+        "C07" => dispatch(props::c07::C07, &args),
+        "C08" => dispatch(props::c08::C08, &args),
         "C09" => dispatch(props::c09::C09, &args),
         "C10" => dispatch(props::c10::C10, &args),
+        "C11" => dispatch(props::c11::C11, &args),
         "C13" => dispatch(props::c13::C13, &args),
         "C14" => dispatch(props::c14::C14, &args),
         "C15" => dispatch(props::c15::C15, &args),
+        "C16" => dispatch(props::c16::C16, &args),
+        "C17" => dispatch(props::c17::C17, &args),
         "C18" => dispatch(props::c18::C18, &args),
         _ => {
             eprintln!("usage: vcheck <C01..C18> <quick|thorough> | vcheck <ID> --replay <file>");
